@@ -81,7 +81,9 @@ def collect(h):
         if not fn.endswith(".go") or fn.endswith("_test.go"):
             continue
         txt = h.src("pkg/istructsmem/" + fn)
-        for m in re.finditer(r"\.isActiveModified\s*=\s*(?!false\b)(?!=)", txt):
+        for m in re.finditer(r"\.isActiveModified\s*=(?!=)\s*([^\n]*)", txt):
+            if m.group(1).strip() == "false":
+                continue
             heads = re.findall(r"^func (?:\([^)]*\)\s*)?(\w+)\(", txt[:m.start()], re.M)
             setters.append((fn, heads[-1] if heads else "?"))
     if not setters:
